@@ -238,4 +238,11 @@ def run(ctx):
     ctx.cov["exhaustive"] = bool(T)
     for r in [r for r in recs if r["kind"] == "replay"][:2] + [r for r in recs if r["kind"] == "server"][:1]:
         ctx.sample({"kind": r["kind"], "map": r.get("map"), "events": (r.get("events") or [])[:12]})
-    _bg_server.join()
+    try:
+        _bg_server.join()
+    except vlib.Infra as e:
+        # guide rule 9: an infrastructure problem of the extension (e.g. its driver dying on a message a
+        # mutated reader mis-delivered) must not turn recorded violations into exit 2
+        if not (ctx.violations or ctx.known_hits):
+            raise
+        log("note: server_extra ended with an infrastructure error, violations are already recorded: %s" % str(e)[:300])
